@@ -15,9 +15,12 @@ RULE = ('FFT cases: every shape in {1..9}^2 (all parity pairs, square and not) p
         'complex (70%) / real input, float64 (85%) / float32 configuration: energy of focus/unfocus/pad2d, unfocus(focus)=id, '
         'focus(unfocus)=id, Wavefront.focus/unfocus; band-complete cases: (m,Qy) and (n,Qx) drawn from all pairs with m*Q integer, '
         'Q in {1,1.5,2,2.5,3,4/3,5/3,1.25}, shifts from {0,+-1,+-2.5,(1.5,-2.25)}: energy and idft2(dft2)=id / iczt2(czt2)=id; '
-        'free-space cases: shapes as above, wavelength in [0.4,2] um, dx in [0.01,1] mm, z with both signs and zero '
-        '(log-uniform magnitude, lambda*|z|/dx^2 <= 200 so that phases are well conditioned), Q in {1,2}: unit modulus of the '
-        'transfer function, energy, identity at z=0, inverse at -z, additivity in z, Wavefront.free_space. '
+        'free-space cases: shapes as above, wavelength in [0.4,2] um (= lambda/1000 mm), dx (mm) log-uniform within one of four '
+        'regimes relative to the wavelength: sub-wavelength lambda/40..lambda/2 (30%, the sampled band reaches beyond 1/lambda), '
+        'lambda/2..4 lambda (15%), ordinary 0.01..1 mm (40%), coarse 1..200 mm (15%); z of both signs, zero (12%), well conditioned '
+        '(largest phase on the band 0.01..300 rad) or large (300..1e6 rad); Q in {1,2}: |H| = 1 at every sample of the transfer '
+        'function, energy, identity at z=0, inverse at -z, additivity in z (tolerance widened by 16 eps x largest phase), '
+        'Wavefront.free_space. '
         'Non-trivial = not 1x1; distinct = distinct (item, input) tuples')
 ASSUMPTIONS = ['scipy.fft.fft2/ifft2 compute the iterated 1-D DFT sums (1/(MN) on the inverse, 1/sqrt(MN) with norm=ortho); '
                'fftfreq(n,d)[k] = (k if k < (n+1)//2 else k-n)/(n d) (modelled; compared every run)',
@@ -201,22 +204,32 @@ def pred_asp(c, verbose=False):
             return False, f'raised {type(ex).__name__}: {str(ex)[:160]}', {}
         if tf.shape != tuple(shp):
             return False, f'transfer function has shape {tf.shape}, field {shp}', {}
+        # |H| == 1 at EVERY frequency sample (exp of a purely imaginary number: exact to an ulp whatever the phase)
         um = float(np.abs(np.abs(tf) - 1).max())
+        eps = 1.2e-7 if et == ETOL32 else 2.3e-16
+        phase = asp_phase_max(c)
+        # two evaluations of the exponent that associate differently (z1 + z2 vs z1, z2) differ by a few eps * phase
+        at_add = max(at, 16 * eps * phase)
         if verbose:
-            print(f'  max ||tf|-1| = {um:.3g}; energy ratio - 1 = {energy(a) / energy(f) - 1:.3g}; '
+            print(f'  dx / lambda = {dx / (wvl / 1e3):.3g}; max phase on the band {phase:.3g} rad; max ||tf|-1| = {um:.3g} '
+                  f'(min |tf| = {float(np.abs(tf).min()):.3g}); energy ratio - 1 = {energy(a) / energy(f) - 1:.3g}; '
                   f'max |A_0 f - f| = {float(np.abs(a0 - g).max()):.3g}; max |A_-z A_z f - f| = {float(np.abs(b - g).max()):.3g}; '
                   f'max |A_z A_z2 f - A_(z+z2) f| = {float(np.abs(s12 - s).max()):.3g}')
-        if um > (1e-6 if et == ETOL32 else 1e-12):
-            return False, f'transfer function modulus differs from 1 by {um:.3g}', {}
+        if not (um <= (1e-6 if et == ETOL32 else 1e-12)):
+            return False, (f'transfer function is not unit modulus: max ||H|-1| = {um:.3g}, min |H| = {float(np.abs(tf).min()):.3g} '
+                           f'(dx = {dx / (wvl / 1e3):.3g} wavelengths)'), {}
         ok, rel = eclose(energy(a), energy(f), et)
         if not ok:
             return False, f'free-space propagation changes the energy by a factor {energy(a) / energy(f):.12g}', {}
-        for nm, x, y in (('A_0 f != f', a0, g), ('A_-z A_z f != f', b, g), ('A_z A_z2 f != A_(z+z2) f', s12, s),
-                         ('Wavefront.free_space != angular_spectrum', wf.data, pr.angular_spectrum(g, wvl, dx, z, Q=1))):
-            ok, err = close(x, y, at)
+        checks = [('A_0 f != f', a0, g, at), ('A_-z A_z f != f', b, g, at),
+                  ('Wavefront.free_space != angular_spectrum', wf.data, pr.angular_spectrum(g, wvl, dx, z, Q=1), at)]
+        if at_add < 1e-3:       # beyond that the phases themselves are lost to rounding: additivity is not testable
+            checks.append(('A_z A_z2 f != A_(z+z2) f', s12, s, at_add))
+        for nm, x, y, tl in checks:
+            ok, err = close(x, y, tl)
             if not ok:
-                return False, f'{nm}: max err {err:.3g}', {}
-        return True, '', {'tf': tf, 'a': a, 'g': g}
+                return False, f'{nm}: max err {err:.3g} (tolerance {tl:.3g})', {}
+        return True, '', {'tf': tf, 'a': a, 'g': g, 'tol_model': max(at, 32 * eps * phase)}
     finally:
         config.precision = 64
 
@@ -250,20 +263,37 @@ def gen_band(r, pairs):
             'precision': 32 if r.random() < 0.12 else 64, 'seed': int(r.integers(1 << 30))}
 
 
+def asp_phase_max(c, shape=None):
+    """largest phase (radians) of the transfer function on the sampled band: pi * lambda_mm * |z| * (kx^2 + ky^2)_max,
+    with |k|max = 1/(2 dx) per axis.  Rounding of the phase (a few eps * phase_max) is the conditioning of every comparison
+    that involves two differently-associated evaluations of the exponent."""
+    zmag = max(abs(c['z']), abs(c.get('z2', 0.0)), abs(c['z'] + c.get('z2', 0.0)))
+    return np.pi * (c['wvl'] / 1e3) * zmag * 2.0 / (2.0 * c['dx']) ** 2
+
+
 def gen_asp(r, shape):
+    """wavelength in MICRONS, dx in MILLIMETRES.  Sampling regimes relative to the wavelength (lambda_mm = wvl/1000):
+    sub-wavelength (dx < lambda/2: the sampled band reaches beyond 1/lambda), around the wavelength, ordinary optics
+    (dx >> lambda), very coarse.  Distances: zero, well-conditioned (phase <= ~300 rad), and large (phase up to ~1e6 rad)."""
     wvl = float(np.exp(r.uniform(np.log(0.4), np.log(2.0))))
-    dx = float(np.exp(r.uniform(np.log(0.01), np.log(1.0))))
-    zmax = 200 * dx * dx / (wvl / 1e3)
+    lam = wvl / 1e3
+    regime = ['sub', 'near', 'ordinary', 'coarse'][int(r.choice(4, p=[0.3, 0.15, 0.4, 0.15]))]
+    lo, hi = {'sub': (lam / 40, lam / 2), 'near': (lam / 2, 4 * lam), 'ordinary': (0.01, 1.0), 'coarse': (1.0, 200.0)}[regime]
+    dx = float(np.exp(r.uniform(np.log(lo), np.log(hi))))
+    unit = 2 * dx * dx / (np.pi * lam)          # |z| giving a maximal phase of 1 rad on the sampled band
 
     def zz():
         x = r.random()
         if x < 0.12:
             return 0.0
-        mag = float(np.exp(r.uniform(np.log(zmax * 1e-4), np.log(zmax))))
+        if x < 0.75:
+            mag = unit * float(np.exp(r.uniform(np.log(1e-2), np.log(300.0))))
+        else:
+            mag = unit * float(np.exp(r.uniform(np.log(300.0), np.log(1e6))))
         return mag if r.random() < 0.5 else -mag
     return {'shape': list(shape), 'wvl': wvl, 'dx': dx, 'z': zz(), 'z2': zz(), 'Q': 1 if r.random() < 0.75 else 2,
             'dtype': 'complex128' if r.random() < 0.8 else 'float64', 'precision': 32 if r.random() < 0.12 else 64,
-            'seed': int(r.integers(1 << 30))}
+            'seed': int(r.integers(1 << 30)), 'regime': regime}
 
 
 # ------------------------------------------------------------------------------------------------
@@ -337,7 +367,8 @@ def _corr(ctx, ft, pr, config):
     for c in acases:
         m, n = c['shape']
         ctx.case('free_space', c, nontrivial=not (m == n == 1),
-                 tag=f'par{m % 2}{n % 2}/{"z0" if c["z"] == 0 else "z+" if c["z"] > 0 else "z-"}/Q{c["Q"]}/p{c["precision"]}')
+                 tag=f'{c.get("regime", "?")}/{"z0" if c["z"] == 0 else "z+" if c["z"] > 0 else "z-"}/'
+                     f'{"phase<=300" if asp_phase_max(c) <= 300 else "phase>300"}/Q{c["Q"]}/p{c["precision"]}')
         ok, detail, ex = pred_asp(c)
         if not ok:
             ctx.pred_fail('free_space', c, detail)
@@ -375,6 +406,9 @@ def _corr(ctx, ft, pr, config):
                     ctx.disagree('band', dict(c, what=nm), f'max |impl - model| = {err:.3g}', f'model {nm}')
         else:
             tf, a = w2arr(rep[at], M, N), w2arr(rep[at + 1], M, N)
+            tol = ex.get('tol_model', tol)      # phase conditioning: a few eps * (largest phase on the band)
+            if tol > 1e-3:
+                continue
             ok, err = close(ex['tf'], tf, tol)
             if not ok:
                 ctx.disagree('free_space', dict(c, what='transfer function'), f'max |impl - model| = {err:.3g}', 'model aspTf2')
@@ -426,11 +460,14 @@ def search(ctx, hints):
             if not ok:
                 return {'item': 'band', 'input': c, 'detail': detail}
     for (m, n) in itertools.product(range(1, 7), repeat=2):
-        for z, z2 in ((0.0, 1.0), (5.0, -2.0), (-3.0, 3.0)):
-            c = {'shape': [m, n], 'wvl': 0.6, 'dx': 0.1, 'z': z, 'z2': z2, 'Q': 1, 'dtype': 'complex128', 'precision': 64, 'seed': 3}
-            ok, detail, _ = pred_asp(c)
-            if not ok:
-                return {'item': 'free_space', 'input': c, 'detail': detail}
+        # (wavelength um, dx mm): ordinary, sub-wavelength (dx = lambda/6, lambda/2.5), about one wavelength, very coarse
+        for wvl, dx in ((0.6, 0.1), (0.6328, 1e-4), (1.55, 6e-4), (0.5, 5e-4), (1.0, 50.0)):
+            unit = 2 * dx * dx / (np.pi * wvl / 1e3)
+            for z, z2 in ((0.0, unit), (5.0 * unit, -2.0 * unit), (-3.0 * unit, 3.0 * unit), (1e5 * unit, unit)):
+                c = {'shape': [m, n], 'wvl': wvl, 'dx': dx, 'z': z, 'z2': z2, 'Q': 1, 'dtype': 'complex128', 'precision': 64, 'seed': 3}
+                ok, detail, _ = pred_asp(c)
+                if not ok:
+                    return {'item': 'free_space', 'input': c, 'detail': detail}
     # seeded random
     pairs = band_pairs()
     for _ in range(ctx.scale(150, 1500)):
